@@ -759,3 +759,213 @@ class C12Foreign(Monitor):
                                          res.status),
                 {'monitor': 'C12', 'clause': 'foreign_pr_refs'}))
         return out
+
+
+def parse_dest(name):
+    """(kind, version tuple) for destination names, else None."""
+    kind, _, ver = name.partition('/')
+    parts = ver.split('.')
+    if not parts or not all(p.isdigit() for p in parts):
+        return None
+    v = tuple(int(p) for p in parts)
+    if kind == 'development' and len(v) in (1, 2):
+        return ('development', v)
+    if kind == 'stabilization' and len(v) == 3:
+        return ('stabilization', v)
+    if kind == 'hotfix' and len(v) == 3:
+        return ('hotfix', v)
+    return None
+
+
+def wellformed_problems(world, heads, tags):
+    """Independent well-formedness predicate of a repository state."""
+    probs = []
+    devs, stabs = set(), {}
+    for n in heads:
+        p = parse_dest(n)
+        if not p:
+            continue
+        if p[0] == 'development':
+            devs.add(p[1])
+        elif p[0] == 'stabilization':
+            stabs.setdefault(p[1][:2], []).append(p[1][2])
+    released = {}
+    for t in tags:
+        tt = t[1:] if t.startswith('v') else t
+        parts = tt.split('.')
+        if len(parts) in (3, 4) and all(x.isdigit() for x in parts):
+            k = (int(parts[0]), int(parts[1]))
+            released[k] = max(released.get(k, -1), int(parts[2]))
+    for line, micros in sorted(stabs.items()):
+        if len(micros) > 1:
+            probs.append('two stabilization branches for %d.%d' % line)
+        if line not in devs:
+            probs.append('stabilization/%d.%d.x without development/%d.%d'
+                         % (line + line))
+        for m in micros:
+            if m != released.get(line, -1) + 1:
+                probs.append('stabilization/%d.%d.%d but latest release of '
+                             'the line is %d' % (line + (m, released.get(
+                                 line, -1))))
+    for a, b in world.chain_broken(heads):
+        probs.append('%s not contained in %s' % (a, b))
+    return probs
+
+
+class C20Admin(Monitor):
+    """Admin jobs keep the repository well-formed or do nothing."""
+    name = 'C20'
+
+    def start(self, hist):
+        hist.mon_state['queue_order'] = []
+
+    def after_job(self, hist, res, step):
+        w = hist.world
+        jn = type(res.job).__name__
+        out = []
+        order = hist.mon_state['queue_order']
+        if jn == 'PullRequestJob' and res.status == 'Queued':
+            pid = res.job.pull_request.id
+            if pid not in order:
+                order.append(pid)
+        # forget PRs that are no longer queued
+        order[:] = [p for p in order
+                    if any(n.startswith('q/w/%d/' % p) for n in res.heads1)]
+        if not jn.endswith('Job') or jn in ('PullRequestJob', 'CommitJob'):
+            return
+        changed = [(a, old, new, ref) for tx in res.txs
+                   for a, old, new, ref in tx if a == 'berte']
+        refused = res.status in ('JobFailure', 'NothingToDo', 'NotMyJob')
+        hist.count('c20_%s_%s' % (jn, res.status or 'none'))
+        hist.flags.add('c20_admin')
+        queued0 = sorted(set(int(n.split('/')[2]) for n in res.heads0
+                             if n.startswith('q/w/')))
+        if queued0:
+            hist.flags.add('c20_admin_with_queued')
+        branch = res.job.settings.get('branch') if jn in (
+            'CreateBranchJob', 'DeleteBranchJob') else None
+        if refused and changed:
+            out.append((
+                'C20: %s(%s) refused (%s: %s) but changed %s' %
+                (jn, branch, res.status, res.details,
+                 sorted(set(c[3] for c in changed))),
+                {'monitor': 'C20', 'clause': 'refusal_not_clean', 'job': jn}))
+        if res.status not in ('JobSuccess', 'JobFailure', 'NothingToDo',
+                              'NotMyJob', 'Merged', 'QueueBuildFailed'):
+            hist.count('c20_stat_job_error_%s' % res.status)
+        if jn == 'CreateBranchJob' and res.status == 'JobSuccess':
+            p = parse_dest(branch or '')
+            hist.flags.add('c20_created')
+            if not p or branch not in res.heads1:
+                out.append(('C20: create-branch %r reported success but the '
+                            'branch is %s' % (branch, 'not a destination name'
+                                              if not p else 'missing'),
+                            {'monitor': 'C20', 'clause': 'create_bad_name'}))
+            else:
+                probs = wellformed_problems(w, res.heads1, res.tags1)
+                before = wellformed_problems(w, res.heads0, res.tags0)
+                new_probs = [x for x in probs if x not in before]
+                if new_probs:
+                    out.append((
+                        'C20: create-branch %s succeeded but the repository '
+                        'is now ill-formed: %s' % (branch, new_probs[:3]),
+                        {'monitor': 'C20', 'clause': 'create_illformed',
+                         'kind': p[0]}))
+                ver = branch.split('/', 1)[1]
+                if ver in res.tags0:
+                    out.append((
+                        'C20: create-branch %s succeeded although archive tag '
+                        '%s exists' % (branch, ver),
+                        {'monitor': 'C20', 'clause': 'create_archived'}))
+                if p[0] == 'development' and w.mode != 'noqueue' and \
+                        queued0:
+                    devs = sorted(
+                        (parse_dest(n)[1] for n in res.heads0
+                         if parse_dest(n) and
+                         parse_dest(n)[0] == 'development'),
+                        key=lambda v: (v[0], 10 ** 6 if len(v) == 1
+                                       else v[1]))
+                    key = (p[1][0], 10 ** 6 if len(p[1]) == 1 else p[1][1])
+                    newest = (devs[-1][0], 10 ** 6 if len(devs[-1]) == 1
+                              else devs[-1][1]) if devs else None
+                    if newest and key < newest:
+                        out.append((
+                            'C20: create-branch %s (older than the newest '
+                            'development branch) succeeded with pull '
+                            'requests %s queued' % (branch, queued0),
+                            {'monitor': 'C20',
+                             'clause': 'create_with_queued'}))
+        if jn == 'DeleteBranchJob':
+            p = parse_dest(branch or '')
+            if p and branch in res.heads0:
+                ver = branch.split('/', 1)[1]
+                must_refuse = []
+                if w.mode != 'noqueue':
+                    qv = ver
+                    if any(n.startswith('q/w/') and
+                           (n.split('/')[3] == qv or
+                            (p[0] == 'hotfix' and
+                             n.split('/')[3].startswith(qv + '.')))
+                           for n in res.heads0):
+                        must_refuse.append('queued pull requests')
+                if p[0] == 'development' and any(
+                        n.startswith('stabilization/%s.' % ver)
+                        for n in res.heads0):
+                    must_refuse.append('live stabilization branch')
+                if must_refuse:
+                    hist.count('c20_delete_must_refuse')
+                if must_refuse and res.status == 'JobSuccess':
+                    out.append((
+                        'C20: delete-branch %s succeeded despite %s' %
+                        (branch, must_refuse),
+                        {'monitor': 'C20', 'clause': 'delete_not_refused',
+                         'why': must_refuse[0]}))
+                if res.status == 'JobSuccess':
+                    hist.flags.add('c20_deleted')
+                    tag = ver + ('.archived_hotfix_branch'
+                                 if p[0] == 'hotfix' else '')
+                    if branch in res.heads1 or \
+                            res.tags1.get(tag) != res.heads0[branch]:
+                        out.append((
+                            'C20: delete-branch %s succeeded but branch '
+                            'present=%s, archive tag %s -> %s (old tip %s)' %
+                            (branch, branch in res.heads1, tag,
+                             str(res.tags1.get(tag))[:10],
+                             res.heads0[branch][:10]),
+                            {'monitor': 'C20',
+                             'clause': 'delete_without_archive_tag'}))
+        if jn in ('RebuildQueuesJob', 'DeleteQueuesJob'):
+            foreign = sorted(set(c[3] for c in changed
+                                 if not c[3].startswith(H + 'q/')))
+            if foreign:
+                out.append(('C20: %s changed refs outside q/*: %s' %
+                            (jn, foreign),
+                            {'monitor': 'C20', 'clause': 'queue_job_foreign',
+                             'job': jn}))
+        if jn == 'RebuildQueuesJob' and res.status == 'JobSuccess':
+            pend = [j.pull_request.id for j in res.pending
+                    if type(j).__name__ == 'PullRequestJob']
+            hist.count('c20_rebuild_checked')
+            if queued0:
+                hist.flags.add('c20_rebuild_with_queued')
+            if sorted(pend) != queued0:
+                out.append(('C20: rebuild re-submitted %s but %s were queued'
+                            % (pend, queued0),
+                            {'monitor': 'C20', 'clause': 'rebuild_set'}))
+            else:
+                # relative order of non-hotfix PRs = order of entry
+                hot = set(int(n.split('/')[2]) for n in res.heads0
+                          if n.startswith('q/w/') and
+                          len(n.split('/')[3].split('.')) == 4)
+                want = [p_ for p_ in hist.mon_state.get('queue_order0', [])
+                        if p_ in queued0 and p_ not in hot]
+                got = [p_ for p_ in pend if p_ not in hot]
+                if want and sorted(want) == sorted(got) and want != got:
+                    out.append(('C20: rebuild re-submitted %s, queue order '
+                                'was %s' % (got, want),
+                                {'monitor': 'C20',
+                                 'clause': 'rebuild_order'}))
+        return out[:2]
+
+    def before_job(self, hist, job, step):
+        hist.mon_state['queue_order0'] = list(hist.mon_state['queue_order'])
